@@ -6,8 +6,6 @@ import (
 	"path"
 
 	"io"
-
-	"github.com/pkg/errors"
 )
 
 // SFTPIndexStore is an index store backed by SFTP over SSH
@@ -30,7 +28,7 @@ func (s *SFTPIndexStore) GetIndexReader(name string) (r io.ReadCloser, e error) 
 	f, err := s.client.Open(s.pathFromName(name))
 	if err != nil {
 		if os.IsNotExist(err) {
-			err = errors.Errorf("Index file does not exist: %v", err)
+			err = NoSuchObject{name}
 		}
 		return r, err
 	}
